@@ -267,6 +267,7 @@ fn emit(w: &mut World, before: &Snap, after: &Snap, op: &Value, hist: u64, ov: O
         let mut results = Vec::new();
         let mut alters = Vec::new();
         let mut class = json!({"kind": "signer"});
+        let mut multi_child = 0u64;
         for v in v0..v1 {
             let ns = w.signers[s].ns.clone();
             let Some(sc) = stored_command(&w.parties[party], &ns, w.signers[s].handle.as_str(), v) else { continue };
@@ -275,6 +276,7 @@ fn emit(w: &mut World, before: &Snap, after: &Snap, op: &Value, hist: u64, ov: O
             w.reg.register(r["signed"]["message"].as_str().unwrap_or(""), w.proxy_ids[party], &r["request"]);
             let (t, by, intact) = req_msg_term(&mut w.it, &mut w.reg, r);
             let ok = sc["effect"]["result"] == "success";
+            if ok && r["request"]["child_requests"].as_array().map(|a| a.len()).unwrap_or(0) >= 2 { multi_child += 1; }
             let (err, resp) = if ok {
                 w.processed.insert(r["signed"]["message"].as_str().unwrap_or("").to_string());
                 let ex = &sc["effect"]["events"][0]["ProxySignerExchangeDone"];
@@ -305,6 +307,7 @@ fn emit(w: &mut World, before: &Snap, after: &Snap, op: &Value, hist: u64, ov: O
         if let Some(bad) = decoded_numbers_bad(&post["objects"]) {
             let idx = o.w.total; o.impl_failures.push(json!({"index": idx, "history": hist, "op": op, "class": {"decoded_numbers": true}, "what": bad})); }
         *o.kind_hist.entry(format!("signer:{}", w.signers[s].label)).or_default() += 1;
+        if multi_child > 0 { *o.kind_hist.entry("signer:processed-request-of-2+-children".into()).or_default() += multi_child; }
         for r in &results { *o.result_hist.entry(format!("signer:{r}")).or_default() += 1; }
         for a in &alters { *o.alter_hist.entry(format!("request:{a}")).or_default() += 1; }
         let rec = json!({"index": o.w.total, "history": hist, "aggregate": format!("signer {}", w.signers[s].label), "op": op, "results": results, "messages": alters, "override": ov,
@@ -572,6 +575,15 @@ fn run_history(args: &Args, hist: u64, seed: u64, flags: &Flags, out: &Mutex<Out
                 }
             }
         }};
+    }
+
+    // every history starts with ONE signer request that carries requests of all children (two or more), and
+    // the hand-over of its answers to each of them
+    for c in w.children.clone() { let _ = step!(json!({"op": "child_sync", "child": c, "why": "joint first request"}), None, None, w.parties[0].sync_parent(&c, "ta").map(|_| ()).map_err(|e| e.to_string())); }
+    honest_exchange!(0);
+    for c in w.children.clone() {
+        let _ = step!(json!({"op": "child_sync", "child": c, "why": "answers of the joint request"}), None, None, w.parties[0].sync_parent(&c, "ta").map(|_| ()).map_err(|e| e.to_string()));
+        if let Some((gc, gk)) = w.last_given.take() { regive(&mut w, &gc, &gk, "just-handed-over", hist, out); }
     }
 
     let reinit_at = if rng.chance(45) { flags.n_ops / 2 + rng.below(flags.n_ops / 3 + 1) } else { u64::MAX };
@@ -948,6 +960,7 @@ fn main() {
     });
     let mut o = out.into_inner().unwrap();
     o.w.flush();
+    if n_hist > 0 && flags.n_ops > 0 && !o.kind_hist.contains_key("signer:processed-request-of-2+-children") { o.harness_errors.push("no signer request with requests of two or more children was processed in this run".into()); }
     if o.unknown_blobs > 0 { let n = o.unknown_blobs; o.harness_errors.push(format!("{n} signed blobs of unknown origin (bookkeeping of who signed what)")); }
     write_json(&args.out.join("stats.json"), &json!({
         "scenario": "c15", "seed": args.seed, "tier": args.tier, "histories": n_hist, "ops_per_history": flags.n_ops, "wedge": flags.wedge, "late": flags.late,
